@@ -489,6 +489,9 @@ package dnssec
 //@   # to the denial check before the next answer record is looked at (no record's verdict is reused for another owner),
 //@   # and the name checked is the one derived from THIS signature's owner (Labels+1 labels)
 //@   loop 2 invariant calls("(middleware/resolver/dnssec.aggressiveCanonicalName).suffix") == calls("middleware/resolver/dnssec.nextCloserDeniedWithWork")
+//@   # the verdict "every denial interval was fully authenticated" is lost for good by ONE opt-out based denial: once
+//@   # false it stays false for the rest of the answer (a later authenticated denial does not restore it)
+//@   loop 2 invariant !athead(secure) ==> !secure
 //@   assert at call (middleware/resolver/dnssec.aggressiveCanonicalName).suffix#1: arg0 == lastret("middleware/resolver/dnssec.newAggressiveCanonicalName") && lastret("middleware/resolver/dnssec.newAggressiveCanonicalName", 1) == nil && arg1 == int(sig.Labels) + 1
 //@   assert at call internal/dnsname.AppendPresentation#1: arg1 == lastret("(middleware/resolver/dnssec.aggressiveCanonicalName).suffix").wire
 //@   assert at call middleware/resolver/dnssec.nextCloserDeniedWithWork#1: calls("(middleware/resolver/dnssec.aggressiveCanonicalName).suffix") == calls("middleware/resolver/dnssec.nextCloserDeniedWithWork") + 1 && lastret("internal/dnsname.AppendPresentation", 1)
